@@ -36,6 +36,11 @@ static void hkdf_stream(const args_t *a, long idx)
     size_t oneshot[40];
     int no = 0;
     if (idx >= 512) { kl = rnd(&r, 200); sl = rnd(&r, 130); il = rnd(&r, 200); }
+    if (idx % 16 == 7) {        /* power-of-two neighbourhoods for one of the three inputs */
+        static const unsigned SP[] = {127, 128, 129, 255, 256, 257, 511, 512, 513, 1023, 1024, 1025, 4095, 4096, 4097};
+        unsigned v = SP[(idx / 16) % 15];
+        if ((idx / 240) % 3 == 0) kl = v; else if ((idx / 240) % 3 == 1) sl = v; else il = v;
+    }
     set_case("{\"h\":\"kdf\",\"mode\":\"hkdf\",\"i\":%ld,\"keylen\":%zu,\"saltlen\":%zu,\"infolen\":%zu,\"bytes\":\"%s\",\"null0\":%d}",
              idx, kl, sl, il, bc_name[bc], nullmode);
     ++n_eval;
@@ -196,7 +201,7 @@ int main(int argc, char **argv)
     args_t a = parse_args(argc, argv);
     long idx = 0, i;
     install_crash_handlers();
-    gb_init(&gOUT, "out", 1 << 15); gb_init(&gKEY, "key", 4096); gb_init(&gSALT, "salt", 4096); gb_init(&gINFO, "info", 4096);
+    gb_init(&gOUT, "out", 1 << 15); gb_init(&gKEY, "key", 8192); gb_init(&gSALT, "salt", 8192); gb_init(&gINFO, "info", 8192);
     if (!strcmp(a.mode, "hkdf")) {
         for (i = 0; i < a.p1; ++i, ++idx) if (mine(&a, idx)) hkdf_stream(&a, idx);
     } else if (!strcmp(a.mode, "pbkdf2")) {
@@ -212,6 +217,9 @@ int main(int argc, char **argv)
         /* large counts, short outputs */
         { static const unsigned long BC[] = {100, 1000, 4096, 257, 65};
           for (i = 0; i < (a.thorough ? 5 : 3); ++i, ++idx) if (mine(&a, idx)) pbkdf2_case(&a, idx, i % 2 ? 33 : 20, PWL[(i + 2) % 7], 8, BC[i]); }
+        { static const unsigned SP[] = {127, 128, 129, 255, 256, 257, 1023, 1024, 1025, 4096};
+          for (i = 0; i < 10; ++i, ++idx) if (mine(&a, idx)) pbkdf2_case(&a, idx, 40 + (size_t)i, SP[i], (size_t)(i * 5), 2);       /* special password lengths */
+          for (i = 0; i < 10; ++i, ++idx) if (mine(&a, idx)) pbkdf2_case(&a, idx, 33, (size_t)(i * 9), SP[i], 1 + (unsigned long)(i % 3)); }  /* special salt lengths */
         for (i = 0; i < a.p3; ++i, ++idx) {
             rng_t r = rng_for(a.seed, 0x9B02, (uint64_t)i);
             size_t ol = rnd(&r, 6) == 0 ? rnd(&r, 2000) : rnd(&r, 130);
